@@ -633,7 +633,11 @@ class Run:
         if not same(real, model):
             self.mismatches += 1
             what = f"real createConstantBlocks and the Lean model disagree ({tag}): " + describe_diff(real, model)
-            if verdict not in ("bad",):
+            if real[0] == "err" and model[0] == "ok":
+                # a concrete failing input: the option makes the compilation of these ops die (the model, proven to keep every
+                # constant, assembles them), so the constants are not loaded at all
+                self.rep.violation(f"createConstantBlocks raises {real[1]} on an op list whose constants can be assembled ({tag}): " + what, replay)
+            elif verdict not in ("bad",):
                 # no failing input of the property itself was found for this case
                 self.rep.violation(what, replay, no_input=True)
 
